@@ -316,6 +316,36 @@ func (in *inliner) rewriteList(pk *packages.Package, file *ast.File, encl *ast.F
 				}
 			}
 		}
+		// `for … := range f(a) {` / `switch f(a) {`: the ranged (switched) expression is evaluated once, before the
+		// statement — a helper call there moves into a temporary in front of it
+		{
+			var slot *ast.Expr
+			switch x := st.(type) {
+			case *ast.RangeStmt:
+				slot = &x.X
+			case *ast.SwitchStmt:
+				if x.Init == nil && x.Tag != nil {
+					slot = &x.Tag
+				}
+			}
+			if slot != nil {
+				if call, isCall := (*slot).(*ast.CallExpr); isCall {
+					if fn := calleeOf(pk.TypesInfo, call); fn != nil {
+						if fd, elig := in.eligible(fn, pk); elig && fd != nil && fn.Type().(*types.Signature).Results().Len() == 1 {
+							in.counter = int(atomic.AddInt64(&inlineSeq, 1))
+							tmp := "inlr" + strconv.Itoa(in.counter)
+							asg := &ast.AssignStmt{Lhs: []ast.Expr{ast.NewIdent(tmp)}, Tok: token.DEFINE, Rhs: []ast.Expr{call}}
+							if repl, ok := in.expandStmt(pk, file, encl, asg); ok {
+								*slot = ast.NewIdent(tmp)
+								out = append(out, repl...)
+								out = append(out, st)
+								continue
+							}
+						}
+					}
+				}
+			}
+		}
 		// `if x := f(a); cond {…}` with f an eligible helper: the init statement moves in front of the
 		// if, both inside a block of their own (same scope for x, same order of evaluation)
 		if ifs, isIf := st.(*ast.IfStmt); isIf && ifs.Init != nil {
@@ -557,6 +587,7 @@ func (in *inliner) expandStmt(pk *packages.Package, file *ast.File, encl *ast.Fu
 		}
 	}
 	body := cloneBlock(fd.Body)
+	relabel(body) // the helper's body may already hold labels of expansions made in it: every copy gets its own
 	// named results are ordinary locals of the expanded block
 	var namedResults []string
 	if fd.Type.Results != nil {
@@ -2223,6 +2254,7 @@ func tailDup(body *ast.BlockStmt) int {
 		}
 		appendTail := func(list []ast.Stmt) []ast.Stmt {
 			c := cloneBlock(&ast.BlockStmt{List: tail})
+			relabel(c)
 			return append(list, c.List...)
 		}
 		switch s := body.List[i].(type) {
@@ -2504,6 +2536,7 @@ func (in *inliner) splitCases(pk *packages.Package, file *ast.File, fd *ast.Func
 					c.be.X, c.be.Op, c.be.Y = ast.NewIdent("true"), token.EQL, ast.NewIdent(res)
 				}
 				body := cloneBlock(&ast.BlockStmt{List: cc.Body})
+				relabel(body)
 				for _, c := range cmps {
 					*c.be = c.old
 				}
@@ -2523,4 +2556,36 @@ func (in *inliner) splitCases(pk *packages.Package, file *ast.File, fd *ast.Func
 		in.inlined["case-splitting("+fd.Name.Name+")"]++
 	}
 	return changed
+}
+
+// relabel gives every label defined inside b a fresh name (and renames the branches to it), so that a block
+// can be copied into a function more than once.
+func relabel(b *ast.BlockStmt) {
+	fresh := map[string]string{}
+	ast.Inspect(b, func(n ast.Node) bool {
+		if ls, ok := n.(*ast.LabeledStmt); ok {
+			if _, done := fresh[ls.Label.Name]; !done {
+				fresh[ls.Label.Name] = "inl" + strconv.Itoa(int(atomic.AddInt64(&inlineSeq, 1)))
+			}
+		}
+		return true
+	})
+	if len(fresh) == 0 {
+		return
+	}
+	ast.Inspect(b, func(n ast.Node) bool {
+		switch x := n.(type) {
+		case *ast.LabeledStmt:
+			if nn, ok := fresh[x.Label.Name]; ok {
+				x.Label = ast.NewIdent(nn)
+			}
+		case *ast.BranchStmt:
+			if x.Label != nil {
+				if nn, ok := fresh[x.Label.Name]; ok {
+					x.Label = ast.NewIdent(nn)
+				}
+			}
+		}
+		return true
+	})
 }
